@@ -96,9 +96,12 @@ def run(ctx):
     vals = [1 + rng.randrange(5) for _ in range(n)]
     impl_phase(ctx, "rand", exe, ["random", ctx.seed, steps, 2], ["".join(map(str, vals)), 3, 1], kind[2], vdef(vals),
                consts(vals, 3), props)
+    # comparison functions that sort a list of their own on every call (elements that own lists, sorted lazily)
+    impl_phase(ctx, "rand-nestcmp", exe, ["random", ctx.seed + 7, 1500 if ctx.quick else 10000, 2], ["".join(map(str, vals)), 3, 1], kind[2], vdef(vals),
+               consts(vals, 3), props, env={"VERIF_NESTCMP": "1"})
     # lists of 2^16 and more elements (sort, push_back after it, reverse)
     from . import p_big
-    p_big.big_phase(ctx, [f"{kind[0]}:70000", f"{kind[0]}:400000"] if ctx.quick else [f"{kind[0]}:70000", f"{kind[0]}:400000", f"{kind[0]}:1000000"])
+    p_big.big_phase(ctx, [f"{kind[0]}:70000", f"{kind[0]}:400000"] if ctx.quick else [f"{kind[0]}:70000", f"{kind[0]}:400000", f"{kind[0]}:1100000"])
     ctx.assumptions += [
         f"TLC and the TLA+ text of the sequence contract in {kind[1]}Ops.tla are trusted",
         "the driver reads head/tail/next/prev links and sizes from the real structs (public headers)",
